@@ -28,7 +28,9 @@ func c19CheckFamily(r *fw.Run, key string, fam []c19Member, ops []string) bool {
 	for i, m := range fam {
 		got := m.msg.String()
 		want := m.model.Encode()
-		if got != want {
+		dec, n, ok := ref.DecodeMsg(got)
+		same := (m.model.Empty() && got == "") || (ok && n == len(got) && dec.Same(m.model))
+		if !same {
 			r.Violation(key, []string{"family_member_changed"}, map[string]any{"ops": ops, "member": i, "got": fw.Q(fw.Trunc(got, 500)), "want": fw.Q(fw.Trunc(want, 500))},
 				"C19: after %q member %d of the clone family encodes to something else than its own history of mutations", ops[len(ops)-1], i)
 			return false
